@@ -43,18 +43,22 @@ def _test_case(job):
 
 def _update_case(job):
     """`bumpver update [--dry] ...` in a scratch project (commit off), tags served by the fake git"""
-    (pat, cfgver, tags, tags_branch, scope, ignore, mode, arg, date, dry, idx) = job
+    (pat, cfgver, tags, tags_branch, scope, ignore, mode, arg, date, dry, idx) = job[:11]
+    vcs_fault = job[11] if len(job) > 11 else None        # "fetch" / "ls_tags": the VCS command fails (remote present, fetching on)
     with drive.scratch_dir("c01") as d:
         proj = project.Project(os.path.join(d, "p"))
         fv = fakevcs.FakeVCS(os.path.join(d, "fake"))
-        fv.set(tags=tags, tags_branch=tags_branch, status="", remote="", branches="")
+        if vcs_fault:
+            fv.set(tags=tags, tags_branch=tags_branch, status="", remote="", branches="* main 1234abc [origin/main] msg\n", fail=[vcs_fault, "ls_tags_branch"] if vcs_fault == "ls_tags" else [vcs_fault])
+        else:
+            fv.set(tags=tags, tags_branch=tags_branch, status="", remote="", branches="")
         proj.write("bumpver.toml", project.bumpver_toml(cfgver, pat, [("README.md", ["{version}"]), ("src/pkg.txt", ['version = "{version}"'])],
                                                         extra={"tag_scope": scope}))
         proj.write("README.md", "# demo\n\ncurrent release: %s (see notes)\n" % cfgver)
         proj.write("src/pkg.txt", 'name = "x"\nversion = "%s"\n' % cfgver)
         proj.write("unrelated.txt", "keep %s\n" % cfgver)
         before = proj.snapshot()
-        args = ["update", "--no-fetch"]
+        args = ["update"] + ([] if vcs_fault else ["--no-fetch"])
         if dry:
             args.append("--dry")
         if ignore:
@@ -137,6 +141,9 @@ def run(ctx):
             g = _greater(cfgver, pat, date)
             mode, arg = "set", rng.choice(targets(rng, cfgver, g))
         ujobs.append((pat, cfgver, tags, tags_branch, scope, ignore, mode, arg, nd, rng.random() < 0.5, i))
+        if tags and not ignore and i % 6 == 0:
+            # the same case with a remote, fetching on, and the fetch / tag listing failing: the run must not go on as if there were no tags
+            ujobs.append((pat, cfgver, tags, tags_branch, scope, ignore, mode, arg, nd, rng.random() < 0.5, i, rng.choice(["fetch", "ls_tags"])))
     uevents = drive.pmap(_update_case, ujobs, hooks=False, chunksize=20)
     ctx.count("update_cases", len(uevents))
     events = [e for e in events + uevents if all(len(t) <= 60 for t in [e["cfgver"], e["new"]])]
